@@ -304,6 +304,8 @@ impl DNSSector {
 
     /// Parses a question RR.
     fn parse_question(&mut self) -> Result<(), Error> {
+        #[cfg(dnssector_verif)]
+        crate::verif_hooks::step();
         self.skip_name()?;
         self.ensure_in_class()?;
         if self.rr_class()? != Class::IN.into() {
@@ -315,6 +317,8 @@ impl DNSSector {
 
     /// Parses a RR from the answer, nameservers or additional sections.
     fn parse_rr(&mut self, section: Section) -> Result<(), Error> {
+        #[cfg(dnssector_verif)]
+        crate::verif_hooks::step();
         let rr_start_offset = self.offset;
         self.skip_name()?;
         let rr_type = self.rr_type()?;
@@ -524,6 +528,8 @@ impl DNSSector {
         self.edns_end = Some(self.offset + edns_len);
         self.edns_count = 0;
         while self.edns_remaining_len() > 0 {
+            #[cfg(dnssector_verif)]
+            crate::verif_hooks::step();
             self.edns_skip_rr()?;
             self.edns_count += 1;
         }
@@ -543,6 +549,8 @@ impl DNSSector {
             bail!(DSError::InvalidName("Empty name"));
         }
         loop {
+            #[cfg(dnssector_verif)]
+            crate::verif_hooks::step();
             if offset >= packet_len {
                 bail!(DSError::InvalidName("Truncated name"));
             }
